@@ -38,12 +38,20 @@ type verifBridgeClient struct {
 	opened   int
 	closed   int
 	failNext bool
+	status   int // non-zero: the next request is answered with this status by a front end, not by the bridge
 }
 
 func (c *verifBridgeClient) Do(req *http.Request) (*http.Response, error) {
 	if c.failNext {
 		c.failNext = false
 		return nil, errors.New("transport failure")
+	}
+	if c.status != 0 {
+		st := c.status
+		c.status = 0
+		c.opened++
+		return &http.Response{StatusCode: st, Status: strconv.Itoa(st),
+			Body: &verifRespBody{data: []byte("front end error"), closed: &c.closed, opened: &c.opened}}, nil
 	}
 	w := &verifWriter{}
 	c.b.ServeHTTP(w, req)
@@ -69,7 +77,15 @@ func Harness_C19_channel() {
 	arg := nondetToken("arg")
 	assume(tokKind(arg) != tkInvalid)
 	params := tokArray([]json.RawMessage{arg})
-	switch nondetChoice("workload", 5) {
+	switch nondetChoice("workload", 6) {
+	case 5: // the HTTP exchange succeeds but with an error status (proxy, closed bridge, ...)
+		st := nondetInt("http-status")
+		assume(st >= 100 && st <= 599 && st != 200 && st != 204)
+		hc.status = st
+		_, err := cli.Call(context.Background(), "echo", params)
+		vassert(err != nil, "C19: an HTTP error status ends the call with an error")
+		vassert(calls == 0, "no handler ran")
+		reach("http-status")
 	case 4: // a request is still in flight when the channel is closed
 		raw := tokObject([]string{"jsonrpc", "id", "method", "params"}, []json.RawMessage{tokString("2.0"), tokLit("1"), tokString("echo"), params})
 		if nondetBool("in-flight-notification") {
